@@ -257,7 +257,7 @@ def main():
             shutil.rmtree(workdir, ignore_errors=True)
 
     known, fixed = load_known()
-    known_for = {k['obligation']: k for k in known if k['property'] == pid}
+    known_for = {k['obligation']: k for k in known if pid in k['property'].split(',')}
     only = spec.get('only_safety', False)
     clause_filter = spec.get('clause_prefixes')  # None = all
     violations, known_hits, ignored = [], [], []
@@ -309,8 +309,11 @@ def main():
                     samples.append({'obligation': ob, 'clause': c['text']})
             # one implicit safety obligation per extracted function (no overflow / div0 / failed callee precondition / OOB)
             for fn in r['functions']:
+                body_f = [f for f in r['failures'] if f['fn'] == fn['fn'] and f['clause'].startswith('body:')]
+                if body_f and all(f['obligation'] in known_for for f in body_f):
+                    continue   # its safety obligation fails only where a known finding says so: listed, not counted
                 obligations += 1
-                if not any(f['fn'] == fn['fn'] and f['clause'].startswith('body:') for f in r['failures']):
+                if not body_f:
                     discharged += 1
         else:
             for h in r['harnesses']:
